@@ -430,7 +430,7 @@ def finish(mod, prop_id, tier, seed, nshards, results, inconclusive, wall) -> in
         "wall_s": round(wall, 3),
         "violations": len(new_violations),
     }
-    EVIDENCE_DIR.mkdir(exist_ok=True)
+    EVIDENCE_DIR.mkdir(parents=True, exist_ok=True)
     (EVIDENCE_DIR / f"{prop_id}.json").write_text(json.dumps(evidence, indent=1, sort_keys=False) + "\n")
 
     for key, v in sorted(known_hits.items()):
@@ -439,7 +439,7 @@ def finish(mod, prop_id, tier, seed, nshards, results, inconclusive, wall) -> in
     rc = 0
     if new_violations:
         rc = 1
-        REPLAY_DIR.mkdir(exist_ok=True)
+        REPLAY_DIR.mkdir(parents=True, exist_ok=True)
         (REPLAY_DIR / prop_id).mkdir(exist_ok=True)
         printed: Counter = Counter()
         suppressed = 0
